@@ -3,4 +3,4 @@
 sfx=$1; shift
 conf1() { id=$1; sfx=$2; /verif/tools/seed_confirm.sh $id $sfx > /tmp/confirm-${id}${sfx}.log 2>&1; echo "$id $(tail -1 /tmp/confirm-${id}${sfx}.log)"; rm -rf /tmp/seed-${id}${sfx}/target /tmp/seed-${id}${sfx}/SEED/demo/target; }
 export -f conf1
-printf "%s\n" "$@" | xargs -P 3 -I{} bash -c "conf1 {} $sfx"
+printf "%s\n" "$@" | xargs -P ${WAVE_P:-3} -I{} bash -c "conf1 {} $sfx"
